@@ -1,9 +1,11 @@
 #!/bin/bash
-# usage: confirm_seed.sh <Cxx> <mN>   confirm a seeded change in its scratch worktree /tmp/mut/<Cxx>:
+# usage: [MUTROOT=/tmp/mut2] confirm_seed.sh <Cxx> <mN>   confirm a seeded change in its scratch worktree $MUTROOT/<Cxx>:
 #   compiles (with and without the hooks feature), the 34 tests pass, the demonstration fails with it and passes without
-p="$1"; m="$2"; w=/tmp/mut/$p; o=$w/_out
+p="$1"; m="$2"; w=${MUTROOT:-/tmp/mut}/$p; o=$w/_out
 cd "$w" || exit 2
 git checkout -q -- . 2>/dev/null
+# a demonstration may need a dev-dependency (never part of the seeded change itself)
+[ -f "$o/demo_dev_dependency.patch" ] && git apply "$o/demo_dev_dependency.patch" 2>/dev/null
 n=${m#m}
 kind=$(python3 -c "import json;print(json.load(open('$o/$m.json')).get('demo_kind','example'))" 2>/dev/null || echo example)
 mkdir -p examples tests
@@ -14,6 +16,6 @@ cargo build --offline >/dev/null 2>&1 && res="$res build=ok" || res="$res build=
 cargo build --offline --features verif-hooks >/dev/null 2>&1 && res="$res hooks=ok" || res="$res hooks=FAIL"
 t=$(cargo test --offline --lib 2>&1 | grep "test result" | head -1); echo "$t" | grep -q "34 passed; 0 failed" && res="$res tests=34ok" || res="$res tests=FAIL($t)"
 timeout 600 $run >/dev/null 2>&1; rc=$?; [ $rc -ne 0 ] && res="$res demo_with=fails($rc)" || res="$res demo_with=PASSES"
-git checkout -q -- src Cargo.toml
+git apply -R "$o/$m.patch"
 timeout 600 $run >/dev/null 2>&1; rc=$?; [ $rc -eq 0 ] && res="$res demo_without=passes" || res="$res demo_without=FAILS($rc)"
 echo "$res"
